@@ -129,6 +129,7 @@ type dRun struct {
 	trace []dEvent
 	clk   int64
 	live  int32 // 1 while this run accepts hook events
+	dead  bool  // set under mu when the run is finished: the trace is frozen
 
 	wmu    sync.Mutex
 	writes []*dWrite
@@ -201,6 +202,12 @@ func (r *dRun) at(point string, arg uint64) {
 	t := atomic.AddInt64(&r.clk, 1)
 	var wait *dPause
 	r.mu.Lock()
+	if r.dead {
+		// the run is over and being judged; late events (e.g. from the waiter's cancel goroutine, which
+		// outlives Close) must not touch the trace any more
+		r.mu.Unlock()
+		return
+	}
 	r.trace = append(r.trace, dEvent{pt, arg, role, g, t})
 	switch point {
 	case "m2o.set.claimed":
@@ -421,6 +428,23 @@ func consumerState() (state string, dump string, found bool) {
 	return "", "", false
 }
 
+// cancelGoroutineSeen: does this Waiter implementation have a cancel goroutine (hook points
+// waiter.cancel.*) at all? Learned from the first run that shows one.
+var hasCancelGoroutine int32 = -1
+
+func cancelGoroutineSeen() bool {
+	if v := atomic.LoadInt32(&hasCancelGoroutine); v >= 0 {
+		return v == 1
+	}
+	for _, g := range gstate.Snapshot() {
+		if g.Has("diodes.NewWaiter.func") {
+			atomic.StoreInt32(&hasCancelGoroutine, 1)
+			return true
+		}
+	}
+	return false
+}
+
 func closerState() (state string, found bool) {
 	for _, g := range gstate.Snapshot() {
 		if g.Has("diode.Writer.Close") {
@@ -461,7 +485,9 @@ func (r *dRun) awaitQuiescence(limit time.Duration) {
 		if time.Since(lastProgress) > 2*time.Millisecond {
 			if r.cfg.Poll == 0 {
 				st, dump, found := consumerState()
-				if found && st == "sync.Cond.Wait" && !r.progressDone() {
+				// parked waiting for a wake-up: on a condition variable or (channel-based waiter) in a select /
+				// channel receive inside Waiter.Next; the wrapped writer's own blocking is excluded by frame
+				if found && (st == "sync.Cond.Wait" || ((st == "select" || st == "chan receive") && strings.Contains(dump, "(*Waiter).Next") && !strings.Contains(dump, "(*dRun).at"))) && !r.progressDone() {
 					r.StallState, r.StallDump = "parked", dump
 					return
 				}
@@ -550,12 +576,15 @@ func (r *dRun) finish() {
 		r.doClose(3 * time.Second)
 	}
 	// wait for the waiter's cancel goroutine of this run to have broadcast (it outlives Close)
-	if r.cfg.Poll == 0 && !r.cfg.Hookless {
+	if r.cfg.Poll == 0 && !r.cfg.Hookless && cancelGoroutineSeen() {
 		for i := 0; i < 20000 && atomic.LoadInt32(&r.cancelBcast) == 0; i++ {
 			time.Sleep(50 * time.Microsecond)
 		}
 	}
 	atomic.StoreInt32(&r.live, 0)
+	r.mu.Lock()
+	r.dead = true
+	r.mu.Unlock()
 }
 
 func (r *dRun) doClose(limit time.Duration) {
